@@ -187,13 +187,13 @@ pub fn run(r: &mut Runner) {
         }
     });
     // atan2: all four sign combinations, all axis cases
-    let ge: Vec<i32> = if quick { vec![-30, -15, -1, 0, 1, 29] } else { (-30..=29).collect() };
+    let ge: Vec<i32> = if quick { vec![-30, -1, 0, 1, 29] } else { (-30..=29).collect() };
     let mut g = grid_thin(&ge, if quick { 1 } else { 3 }, 95);
     for z in [[0.0, 0.0], [-0.0, 0.0], [0.0, -0.0], [-0.0, -0.0], [2f64.powi(30), 0.0], [-2f64.powi(30), 0.0], [2f64.powi(-30), 0.0], [-2f64.powi(-30), 0.0]] {
         g.push(z);
     }
     // ratios across every atan reduction interval: y = j/32 (j up to 128) against x = +-1, +-3
-    for j in 1..=128 {
+    for j in (1..=128).step_by(if quick { 3 } else { 1 }) {
         g.push([j as f64 / 32.0, 0.0]);
         g.push([-(j as f64) / 32.0, 2f64.powi(-60)]);
     }
